@@ -214,6 +214,21 @@ def check_values(history, criteria):
     return out
 
 
+def check_optimum_near_ties(costs_seq, crit):
+    """find_optimum on costs that differ by a few 1e-8 (and by one ulp): the true minimum / maximum must be returned."""
+    history = [((0.1 * k, 0.0), (c, 1.0), k % 2, 1) for k, c in enumerate(costs_seq)]
+    problem, res, inds = build(history, (crit, "minimize"))
+    out = []
+    try:
+        opt = res.find_optimum("f0")
+    except Exception as e:
+        return [("C17:find_optimum:exception:%s" % type(e).__name__, "find_optimum raised %r on costs %r" % (e, costs_seq))]
+    best = (max if crit == "maximize" else min)(costs_seq)
+    if not any(opt is i for i in inds) or opt.costs[0] != best:
+        out.append(("C17:find_optimum:near-tie:%s" % (crit or "absent"), "find_optimum returned cost %r, best of %r is %r" % (opt.costs[0], costs_seq, best)))
+    return out
+
+
 def ref_gd(reference, computed):
     tot = 0.0
     for c in computed:
@@ -232,7 +247,7 @@ def check_indicators(reference, computed):
     try:
         g = float(gd([tuple(r) for r in reference], [tuple(c) for c in computed]))
         e = ref_gd(reference, computed)
-        if abs(g - e) > 1e-12 * max(1.0, e):
+        if abs(g - e) > 1e-12 * max(1.0, e, max(abs(v) for pt in list(reference) + list(computed) for v in pt) * 1e-3):
             out.append(("C17:gd:value", "gd = %r, definition %r; %s" % (g, e, desc)))
         subset = all(tuple(c) in set(map(tuple, reference)) for c in computed)
         if (g == 0.0) != subset:
@@ -294,10 +309,25 @@ def _shard(shard, col: Collector):
             for key, msg in check_values(hist, criteria):
                 col.violation(key, "values", msg, {"history": hist, "criteria": criteria})
         col.sample({"kind": "value-history", "history": [first] + [alpha[5]] * (n - 1), "criteria": criteria}, 1)
+    elif kind == "near":
+        import math
+        vals = (0.5, 0.5 + 1e-8, 0.5 + 4e-8, math.nextafter(0.5, 1.0), 0.5 - 3e-8)
+        for n in (2, 3):
+            for seq in itertools.permutations(vals, n):
+                for crit in ("minimize", "maximize", None):
+                    col.case()
+                    col.nontrivial(("near", seq, crit))
+                    for key, msg in check_optimum_near_ties(list(seq), crit):
+                        col.violation(key, "near", msg, {"costs": seq, "crit": crit})
+        col.sample({"kind": "optimum over near-tie costs", "costs": [0.5, 0.50000001, 0.50000004], "criteria": "minimize"}, 1)
     elif kind == "ind":
         _, which = shard
         if which == "2d":
             pts = list(itertools.product((0.0, 0.5, 1.0), repeat=2))
+        elif which == "decimal":
+            pts = [(0.1, 0.7), (0.2, 0.3), (0.3, 0.1), (0.7, 0.2), (0.1, 0.1), (0.7, 0.7)]
+        elif which == "large":
+            pts = [(1e4 + 0.1, 2e4 + 0.7), (1e4 + 0.2, 2e4 + 0.3), (1e5 + 0.3, 1e5 + 0.1), (1e5 + 0.7, 1e5 + 0.2), (1e4 + 0.105, 2e4 + 0.7), (12345.678, 98765.4321)]
         else:
             pts = [(0.0, 0.0, 0.0), (1.0, 0.0, 0.5), (0.0, 1.0, 0.5), (0.5, 0.5, 1.0), (1.0, 1.0, 1.0), (0.25, 0.75, 0.0)]
         for ref in subsets(pts):
@@ -326,6 +356,8 @@ def replay(sub, case):
         return check_tags(list(case["tags"]))
     if sub == "values":
         return check_values([tup(h) for h in case["history"]], tuple(case["criteria"]))
+    if sub == "near":
+        return check_optimum_near_ties(list(case["costs"]), case["crit"])
     if sub == "ind":
         return check_indicators([tuple(r) for r in case["reference"]], [tuple(c) for c in case["computed"]])
     if sub == "shift":
@@ -345,7 +377,7 @@ def run(tier, seed):
         alpha = [(v, c, t, f) for v in VECS for c in costs for t in (0, 2) for f in ((1, 2) if cn == "9" else (1,))]
         for first in alpha:
             shards.append(("values", 3, cn, first, criteria))
-    shards += [("ind", "2d"), ("ind", "3d")]
+    shards += [("ind", "2d"), ("ind", "3d"), ("ind", "decimal"), ("ind", "large"), ("near",)]
     shards.sort(key=lambda s: 0 if s[0] == "ind" or (s[0] == "values" and s[1] == 3) else 1)
     col = run_shards(_shard, shards)
     return col, {"exhaustive": True}
